@@ -560,6 +560,9 @@ public:
         copy_data(mat, uplo, shift);
 
         const RealScalar alpha = (1.0 + std::sqrt(17.0)) / 8.0;
+        // The factorization is successful unless one of the steps below reports a problem
+        // (for a 1x1 matrix no elimination step is executed at all)
+        m_info = CompInfo::Successful;
         Index k = 0;
         for (k = 0; k < m_n - 1; k++)
         {
